@@ -82,14 +82,14 @@ Theorem unknown_workload_iface_dropped : forall c filter e disp hepfwd towl p,
   lookup filter CH_FROM_HEP_FWD = Some hepfwd -> (forall n, callee_dp filter e (I_unk c filter disp) (S n) hepfwd) ->
   lookup filter CH_TO_WL = Some towl -> (forall n, callee_dp filter e (I_unk c filter disp) (S n) towl) ->
   wl_iface c (pk_in p) = true -> name_in (pk_in p) (wl_names filter disp) = false ->
-  (pre_rules_miss c e p -> infra_allowed c e p = false -> hook filter e CH_INPUT p = VDrop)
+  (c_ipvs c = false -> pre_rules_miss c e p -> infra_allowed c e p = false -> hook filter e CH_INPUT p = VDrop)
   /\ hook filter e CH_FORWARD p = VDrop.
 Proof.
   intros c filter e disp hepfwd towl p Hc Hin Hfw Hw Hd Hroot Hh Hhep Ht Htowl Hwl Hun.
   assert (Hp : I_unk c filter disp p) by (split; assumption).
   split.
-  - intros Hmiss Hinfra. apply (hook_drop filter e CH_INPUT (filter_input c) p 3 Hin); [lia|].
-    intro n. apply (unknown_dropped_input c filter e Hc disp Hd Hroot n p Hw). repeat split; assumption.
+  - intros Hipvs Hmiss Hinfra. apply (hook_drop filter e CH_INPUT (filter_input c) p 3 Hin); [lia|].
+    intro n. apply (unknown_dropped_input c filter e Hc disp Hd Hroot Hipvs n p Hw). repeat split; assumption.
   - apply (hook_drop filter e CH_FORWARD (filter_forward c) p 2 Hfw); [lia|].
     intro n. apply (unknown_dropped_forward c filter e disp Hd Hroot n hepfwd towl p Hh (Hhep n) Ht (Htowl n) Hp).
 Qed.
